@@ -10,6 +10,8 @@ by = {}
 for pid, spec in checks_table.CHECKS.items():
     for s in spec["subs"]:
         by.setdefault(s["variant"], set()).add(s["bin"])
+        for extra in s.get("also_build", []):
+            by.setdefault(extra["variant"], set()).add(extra["bin"])
 for v, bins in by.items():
     tg = " ".join(f"{os.getcwd()}/build/{v}/bin/{b}" for b in sorted(bins))
     r = subprocess.run(f"make -s -f build.mk V={v} -j16 {tg}", shell=True)
